@@ -104,4 +104,39 @@ theorem C19_register_per_service (svcs : List (Bytes × List Method)) (cnt : Nat
 example : (bindings [115] [⟨[97], false, false⟩, ⟨[98], false, true⟩, ⟨[99], false, false⟩, ⟨[100], true, true⟩]).map (·.index)
     = [-1, 0, -1, 1] := by decide
 
+theorem request_shape : requestShapeAsModelled = true := by decide
+
+/-- **Every file that declares a service gets its stubs, and they depend on that file alone** — whatever else the request
+    holds and wherever the file stands in it: files without services before or after it, files it imports, files that
+    import it. (The package-override pre-pass runs over all files before the first stub is generated — regenerated.) -/
+theorem C19_file_output_independent_of_request (pre post : List File) (f : File) (hf : f.2 ≠ []) :
+    (f.1, f.2.map fun s => bindings s.1 s.2) ∈ requestOutputs (pre ++ f :: post) := by
+  unfold requestOutputs
+  rw [request_shape, if_pos rfl]
+  apply List.mem_map.mpr
+  refine ⟨f, ?_, by rw [C19_register_per_service]⟩
+  apply List.mem_filter.mpr
+  refine ⟨by simp, ?_⟩
+  cases hfs : f.2 with
+  | nil => exact absurd hfs hf
+  | cons a r => simp
+
+/-- files without services produce nothing and end nothing: the outputs are those of the request without them -/
+theorem C19_serviceless_files_are_transparent (files : List File) :
+    requestOutputs files = requestOutputs (files.filter fun f => !f.2.isEmpty) := by
+  unfold requestOutputs
+  rw [request_shape, if_pos rfl, if_pos rfl, List.filter_filter]
+  simp
+
+/-- the order of the files in the request only orders the outputs -/
+theorem C19_outputs_permute_with_request (a b : List File) (h : a.Perm b) :
+    (requestOutputs a).Perm (requestOutputs b) := by
+  unfold requestOutputs
+  rw [request_shape, if_pos rfl, if_pos rfl]
+  exact (h.filter _).map _
+
+/-- non-vacuity (the shape seeded change C19-m9 broke): a message-only file first, then a file with one service -/
+example : (requestOutputs [([116], []), ([115], [([83], [⟨[97], false, true⟩])])]).map (·.1) = [[115]] := by
+  unfold requestOutputs; rw [request_shape]; decide
+
 end Stubgen
